@@ -17,7 +17,7 @@ svars == <<vars, hist>>
 
 OnlyReady(k) == \A o \in ChanNames \ {k} : chans[o] = <<>>
 
-SimNext ==
+SimCore ==
     \/ \E c \in Clients, op \in Ops : ClientCall(c, op) /\ UNCHANGED hist
     \/ \E c \in Clients : /\ ClientSend(c)
                           /\ hist' = Append(hist, [t |-> "send", c |-> c, k |-> cl[c].op.k, u |-> cl[c].op.u,
@@ -26,6 +26,8 @@ SimNext ==
     \/ DispUpgradeSend /\ hist' = Append(hist, [t |-> "upsend"])
     \/ (DispExec \/ DispNotify \/ DispReply \/ DispUpgradeDone \/ HooksRecv) /\ UNCHANGED hist
     \/ Terminated /\ UNCHANGED hist
+
+SimNext == SimCore /\ UNCHANGED dflt
 
 SimInit == Init /\ hist = <<>>
 SimSpec == SimInit /\ [][SimNext]_svars
